@@ -253,8 +253,11 @@ def apply_call(obj, cfg, call, dtype, rng, refset, readlin=True):
                 else:
                     obj.set_refpoint(state=torch.zeros(1, dtype=dtype), input=torch.zeros(1, dtype=dtype), t=torch.tensor(7))
             elif cls == "LTV":
-                v = call["v"][0]
-                obj.set_refpoint(t=torch.tensor(v) if rng.random() < 0.7 else v)
+                if not call["v"]:                      # "If None, the most recent timestamp is taken"
+                    obj.set_refpoint()
+                else:
+                    v = call["v"][0]
+                    obj.set_refpoint(t=torch.tensor(v) if rng.random() < 0.7 else v)
             else:
                 kw = {}
                 if call["x"]:
@@ -367,9 +370,12 @@ def rand_calls(rng, cfg, length):
             if cls == "LTI":
                 calls.append({"op": "SetRefpoint", "x": [], "u": [], "v": []})
             elif cls == "LTV":
-                v = rng.randint(0, tmax)
-                calls.append({"op": "SetRefpoint", "x": [], "u": [], "v": [v]})
-                t = v
+                if rng.random() < 0.3:
+                    calls.append({"op": "SetRefpoint", "x": [], "u": [], "v": []})
+                else:
+                    v = rng.randint(0, tmax)
+                    calls.append({"op": "SetRefpoint", "x": [], "u": [], "v": [v]})
+                    t = v
             else:
                 gx = (not have_last) or rng.random() < 0.5
                 gu = (not have_last) or rng.random() < 0.5
@@ -765,7 +771,7 @@ def run(ctx):
                 "event by event; bmv/bvv/bvmv on integer data with broadcast batch shapes; trigonometric NLS against mpmath "
                 "(integer ulp measures judged by TLC); a case is distinct by table row / random instance / shape triple"]
     ctx.assumptions = ["integer data (exact in float32/float64), so equality is exact",
-                       "LTV.set_refpoint() without t raises today and is not part of the alphabet (not judged)",
+                       "LTV.set_refpoint() without t keeps the time (documented: the most recent timestamp is taken); it raised until the repair recorded in known_findings.json",
                        "NLS.set_refpoint() with a missing state/input before any forward call is unspecified (not generated)",
                        "systems are called through __call__ (forward() alone does not run the time hook)"]
     if ctx.replay:
